@@ -372,6 +372,26 @@ def RelayNode.addNetwork (r : RelayNode) (networkId : Nat) (isRed : Bool) : Rela
 """
 
 
+def module_dict(path: str, name: str, lean_name: str) -> str:
+    """module-level `NAME = {"k": "v", ...}` used as `NAME.get(x, x)`: a total String -> String function"""
+    with open(os.path.join(REPO, path)) as fh:
+        tree = ast.parse(fh.read())
+    for node in tree.body:
+        if isinstance(node, ast.Assign) and len(node.targets) == 1 and isinstance(node.targets[0], ast.Name) \
+                and node.targets[0].id == name and isinstance(node.value, ast.Dict):
+            items = []
+            for k, v in zip(node.value.keys, node.value.values):
+                if not (isinstance(k, ast.Constant) and isinstance(k.value, str) and isinstance(v, ast.Constant) and isinstance(v.value, str)):
+                    raise Untranslatable(f"{name}: non-literal entry {ast.unparse(k)}: {ast.unparse(v)}")
+                items.append((k.value, v.value))
+            body = "op"
+            for k, v in reversed(items):
+                body = f"(if op == {lean_str(k)} then {lean_str(v)} else {body})"
+            return (f"/-- `{name}.get(op, op)` ({path}) -/\n"
+                    f"def {lean_name} (op : String) : String :=\n  {body}\n")
+    raise Untranslatable(f"{path}: no dict literal named {name}")
+
+
 def generate() -> str:
     out = ["/- GENERATED by harness/py2lean.py from the current /repo sources. Do not edit. -/",
            "import Model.PyInt", "", "namespace Gen", ""]
@@ -388,6 +408,7 @@ def generate() -> str:
     out.append(f.lean()); notes += f.notes
     out.append(iteration_values(find_function("dsl_compiler/src/ast/statements.py", "ForStmt.get_iteration_values")))
     out.append(relay_model())
+    out.append(module_dict("dsl_compiler/src/emission/entity_emitter.py", "_MIRRORED_COMPARATOR", "mirroredComparator"))
     out.append("end Gen")
     out.append("")
     out.append("/- translator notes:\n" + "\n".join(sorted(set(notes))) + "\n-/")
